@@ -37,6 +37,15 @@ theorem runOps_snoc (m : NameMap β) (ops : List (Str × Bool × β)) (op : Str 
     m.runOps (ops ++ [op]) = (m.runOps ops).step op := by
   rw [runOps_append]; rfl
 
+/-- closed form of the effective entries, name by name: the value stored under `n` is decided by
+the calls naming `n` alone — the first defines it, a later one replaces it iff it allows shadowing -/
+theorem effective_lookup_eq_stored (ops : List (Str × Bool × β)) (n : Str) :
+    lookup (effective ops) n = stored ops n :=
+  lookup_effectiveFrom [] ops n
+
+example : stored exOps "a:b/c@1.4.0".toList = some 5 := by decide
+example : stored exOps "a:b/c@1.3.0".toList = none := by decide
+
 /-- the implementation rejects a call exactly when the specification does: the name is among
 the effective entries and shadowing is not allowed -/
 theorem insert_rejected_iff (ops : List (Str × Bool × β)) (n : Str) (sh : Bool) (x : β) :
